@@ -40,7 +40,7 @@ var faultPoints = []struct {
 }{
 	{"write-before-tempfile", []string{"rmdir"}, "TempFile"},
 	{"write-file-created", []string{"close", "readonly"}, "first Encode"},
-	{"write-before-encode", []string{"close", "readonly"}, "Encode"},
+	{"write-before-encode", []string{"close", "readonly", "readonly-once"}, "Encode"},
 	{"write-before-sync", []string{"close"}, "Sync"},
 	{"finalise-before-seek", []string{"close", "truncate"}, "Seek"},
 	{"finalise-before-decode", []string{"close", "corrupt", "truncate"}, "Decode (Finalise)"},
@@ -99,7 +99,7 @@ func execute(h mx.History, faults []sched.Fault, rules []sched.Rule) runResult {
 				done <- runResult{panic: r, sc: sc}
 			}
 		}()
-		out, e := mx.Run(h, s, true)
+		out, e := mx.RunWith(h, s, true, func(ev string) *mx.Err { sc.Mark(ev); return nil })
 		done <- runResult{out: out, err: e, sc: sc}
 	}()
 	var res runResult
@@ -109,15 +109,21 @@ func execute(h mx.History, faults []sched.Fault, rules []sched.Rule) runResult {
 		res = runResult{timeout: true, sc: sc}
 	}
 	// let every background writer that was handed a run finish (after an error the caller has not
-	// gone through Finalise, which is what normally waits for them)
-	for i := 0; i < 500 && (sc.Count("write-received") < sc.Count("push-handoff") || sc.Count("write-received") != sc.Count("write-return-buffer")); i++ {
+	// gone through Finalise, which is what normally waits for them). On a busy machine that can
+	// take a while; CleanUp is only asserted once the writers are quiescent.
+	quiescent := func() bool {
+		return sc.Count("write-received") >= sc.Count("push-handoff") && sc.Count("write-received") == sc.Count("write-return-buffer")
+	}
+	for i := 0; i < 10000 && !quiescent(); i++ {
 		time.Sleep(time.Millisecond)
 	}
-	if !res.timeout {
+	if !res.timeout && quiescent() {
 		// whatever happened before, CleanUp removes the sorter's directory
 		morass.VerifHook = nil
 		res.cleanupErr = s.M.CleanUp()
 		res.residue = s.OwnDir()
+	} else if !res.timeout {
+		vlib.Count("cleanup-not-asserted-writers-still-running", 1)
 	}
 	s.Close()
 	return res
@@ -242,6 +248,11 @@ func TestFaultWithSchedule(t *testing.T) {
 				}
 				c.H.Recover = true
 				c.H.Cycles = append(c.H.Cycles, second)
+				if rapid.Bool().Draw(t, "fault-in-second-cycle") {
+					// the cycle after the failed one fails as well: that failure, too, has to surface
+					c.Fault2 = &sched.Fault{After: "cycle-start 1", Step: "write-before-encode", Occ: rapid.IntRange(0, len(second.Keys)-1).Draw(t, "f2-enc-second"),
+						Action: rapid.SampledFrom([]string{"readonly", "close", "readonly-once"}).Draw(t, "f2-action-second")}
+				}
 			}
 			if rapid.IntRange(0, 2).Draw(t, "overwrite-template") == 0 && c.Fault2 == nil && len(c.H.Cycles) == 1 {
 				// a failing writer, then a later writer's success, before the caller looks again
@@ -259,6 +270,9 @@ func TestFaultWithSchedule(t *testing.T) {
 			l := []string{c.Fault.Step + "/" + c.Fault.Action, vlib.NT}
 			if c.Fault2 != nil {
 				l = append(l, "two-faults")
+				if c.Fault2.After != "" {
+					l = append(l, "fault-in-the-cycle-after-a-failed-cycle")
+				}
 			}
 			if len(c.H.Cycles) > 1 {
 				l = append(l, "reuse-after-failed-cycle")
